@@ -351,14 +351,16 @@ func (ssc *StatefulSetController) adoptOrphanRevisions(set *apps.StatefulSet) er
 	if err != nil {
 		return err
 	}
-	hasOrphans := false
+	// only orphans are adopted: offering a revision we already control to
+	// adoption fails and would fail every following sync as well
+	orphans := make([]*kubeapps.ControllerRevision, 0, len(revisions))
 	for i := range revisions {
 		if metav1.GetControllerOf(revisions[i]) == nil {
-			hasOrphans = true
-			break
+			orphans = append(orphans, revisions[i])
 		}
 	}
-	if hasOrphans {
+	if len(orphans) > 0 {
+		revisions = orphans
 		for i := range revisions {
 			if shouldSyncLabels(revisions[i]) {
 				revisions[i], err = syncLabels(ssc.kubeClient, set, revisions[i])
